@@ -102,6 +102,8 @@ def kernel_replay(o, tree):
         return deferred_c.replay_poly_mul(cfg, w, tree)
     if k == "concat":
         return deferred_c.replay_concat(cfg, tree)
+    if k == "poly-binop":
+        return deferred_c.replay_poly_binop(cfg, w, tree)
     return None
 
 
